@@ -22,7 +22,9 @@ class EngineModel:
         self.src = src
         self.tree = src.tree(ENGINE)
         self.cls = get_class(self.tree, 'KmipEngine')
-        self.methods = methods(self.cls)
+        from .inline import flat_methods
+        fm, self.absorbed = flat_methods(self.cls)
+        self.methods = dict(fm)
         self.dispatch = self._dispatch()
         self.handlers = sorted(set(self.dispatch.values()))
 
